@@ -37,7 +37,7 @@ def headerSchema : Schema :=
 def writeHeader (metadata : List (String × Bytes)) (sync : Bytes) : WR :=
   writeData 4 [] {} headerSchema
     (.dict [(.str "magic", .bytes MAGIC),
-            (.str "meta", .dict (metadata.map fun (k, v) => (.str k, .bytes v))),
+            (.str "meta", .dict (metadata.map fun e => (.str e.1, .bytes e.2))),
             (.str "sync", .bytes sync)])
 
 structure Header where
@@ -108,19 +108,21 @@ inductive Op where
 def dumpIfPending (cfg : WCfg) (st : WState) : WState :=
   if st.pending.length != 0 || st.count > 0 then dump cfg st else st
 
+/-- `if self.validate_fn: self.validate_fn(record, …, raise_errors=True, …)` -/
+def writeGate (validate : Val → R Bool) (cfg : WCfg) (v : Val) : Option Err :=
+  if cfg.validator then
+    match validate v with
+    | .ok true => none
+    | .ok false => some .validation
+    | .error e => some e
+  else none
+
 /-- one `Writer` method call. `enc` is `write_data` under the file's schema, `validate` is the
     `validate_fn` gate. The second component is the exception raised, if any.
     A write that raises leaves the pending block exactly as it was (the buffer is truncated back). -/
 def step (enc : Val → WR) (validate : Val → R Bool) (cfg : WCfg) (st : WState) : Op → WState × Option Err
   | .write v =>
-    let gate : Option Err :=
-      if cfg.validator then
-        match validate v with
-        | .ok true => none
-        | .ok false => some .validation
-        | .error e => some e
-      else none
-    match gate with
+    match writeGate validate cfg v with
     | some e => (st, some e)
     | none =>
       let w := enc v
